@@ -522,7 +522,7 @@ func makeIntArshaler(t reflect.Type) *arshaler {
 					err = &strconv.NumError{Func: "ParseInt", Num: string(val), Err: strconv.ErrSyntax}
 				}
 				if err != nil {
-					if string(val) == "null" {
+					if string(val) == "null" && !isName {
 						if !uo.Flags.Get(jsonflags.MergeWithLegacySemantics) {
 							va.SetInt(0)
 						}
@@ -625,7 +625,7 @@ func makeUintArshaler(t reflect.Type) *arshaler {
 					err = &strconv.NumError{Func: "ParseUint", Num: string(val), Err: strconv.ErrSyntax}
 				}
 				if err != nil {
-					if string(val) == "null" {
+					if string(val) == "null" && !isName {
 						if !uo.Flags.Get(jsonflags.MergeWithLegacySemantics) {
 							va.SetUint(0)
 						}
@@ -752,7 +752,7 @@ func makeFloatArshaler(t reflect.Type) *arshaler {
 					err = &strconv.NumError{Func: "ParseFloat", Num: string(val), Err: strconv.ErrSyntax}
 				}
 				if err != nil {
-					if string(val) == "null" {
+					if string(val) == "null" && !isName {
 						if !uo.Flags.Get(jsonflags.MergeWithLegacySemantics) {
 							va.SetFloat(0)
 						}
